@@ -171,7 +171,7 @@ def _dot(M, v, rows, cols):
     return out
 
 
-DS_CASES = [(2, 0, 'vec', False), (2, 1, 'vec', False), (2, 1, 'block', False), (3, 1, 'vec', True), (3, 1, 'block', True), (2, 2, 'vec', False), (2, 0, 'cvec', True)]
+DS_CASES = [(2, 0, 'vec', False), (2, 1, 'vec', False), (2, 1, 'block', False), (3, 1, 'vec', True), (3, 1, 'block', True), (2, 2, 'vec', False), (2, 0, 'cvec', True), (2, 0, 'vec-x0', False), (2, 1, 'vec-x0', False)]
 for (_n, _ndb, _rhs, _dec) in DS_CASES:
     @harness(P, f'LDAWrapper._do_solve_1rhs[n={_n},stored={_ndb},rhs={_rhs},decoupled_dof={_dec}]', targets=[f'{S}:LDAWrapper._do_solve_1rhs', f'{S}:LinearSolver.residual'],
              timeout=20000)
@@ -186,7 +186,8 @@ for (_n, _ndb, _rhs, _dec) in DS_CASES:
         ctx.warnings_unobserved = True
         ctx.feasible_timeout_ms = 500
         cplx = rhs_kind == 'cvec'          # complex general matrix, reconstruction on the ADJOINT system as LDAWrapper.solve(trans='H') requests it
-        if cplx:
+        with_x0 = rhs_kind.endswith('-x0')  # an initial guess is given: it is projected and handed to the inner solver, and changes nothing else
+        if cplx or with_x0:
             rhs_kind = 'vec'
         d0 = np.empty((n, n), dtype=object)
         for i in range(n):
@@ -262,7 +263,13 @@ for (_n, _ndb, _rhs, _dec) in DS_CASES:
         watch = it.watches.setdefault(f'{S}:LDAWrapper._do_solve_1rhs', {})
         for nm in ('bnrm', 'beta', 'xadd', 'badd'):
             watch[nm] = []
-        ret = it.call(it.getattr(w, '_do_solve_1rhs'), [A, rhs, xs, bs, Builtin('solve_fn', solve_fn)], {'x0': None})
+        x0v = CArr(np.array([ctx.sym(f'guess{i}', 'real') for i in range(n)], dtype=object), 'real') if with_x0 else None
+        x0_before = list(x0v.data) if with_x0 else None
+        ret = it.call(it.getattr(w, '_do_solve_1rhs'), [A, rhs, xs, bs, Builtin('solve_fn', solve_fn)], {'x0': x0v})
+        if with_x0:
+            ctx.prove('initial_guess_untouched', z3.And(*[V.z(V.cmp('==', a_, b_)) for a_, b_ in zip(x0v.data, x0_before)]))
+            if calls:
+                ctx.prove('initial_guess_forwarded', calls[0][2] is not None and tuple(calls[0][2].shape) == (n, 1))
         ctx.prove('result_shape', isinstance(ret, CArr) and tuple(ret.shape) == tuple(rhs.shape))
         R = ret.data.reshape(n, -1)
         ctx.prove('at_most_one_inner_solve', len(calls) <= 1)
@@ -321,7 +328,7 @@ for (_n, _ndb, _rhs, _dec) in DS_CASES:
             # "such a residual of pairs satisfying the invariant satisfies the invariant" over fresh variables, (iii) instantiation
             # which iteration of the append loop produced pair k: vectors whose orthogonalised right-hand side vanishes are skipped (path condition)
             if k == ndb:
-                plan, pos, size = [], 0, ndb
+                plan, pos, size = [], (ndb if (with_x0 and calls) else 0), ndb       # the projection of an initial guess computes one coefficient per stored pair first
                 for i_it, nv in enumerate(watch['bnrm']):
                     bet_i = watch['beta'][pos:pos + size]
                     pos += size
